@@ -119,6 +119,19 @@ impl SyntaxPattern {
                                     for (var, multi_match) in multi_matches_substitutions {
                                         substitutions.get_mut(&var).unwrap().1.push(multi_match.0);
                                     }
+                                } else {
+                                    // the run of forms matched by the ellipsis ends here: the
+                                    // rest of the pattern has to match from this form on
+                                    return Self::match_datum_stream(
+                                        pattern_index + 1,
+                                        datum_index,
+                                        depth,
+                                        patterns,
+                                        datums,
+                                        pattern_literals,
+                                        substitutions,
+                                        None,
+                                    );
                                 }
                                 if Self::match_datum_stream(
                                     pattern_index,
